@@ -21,8 +21,9 @@ META = dict(
               "writes into a deep copy of the settings) + trace correspondence of recorded State/RNG operations of real fits, "
               "decided inside Coq with the model's own `read_only` predicate + metamorphic bit-identity on the implementation",
     level_text="partial: the kernel of the property is proved for every observer schedule / iteration script / seed on the model, "
-               "with the behaviour of one State object as explicit interface hypotheses (C01's cache theorems; proved for a concrete "
-               "memo table). Most of the assurance that the CODE has this shape comes from the per-run checks: recorded traces of real "
+               "with the behaviour of one State object as an explicit interface; that interface is PROVED for the State model of C01 on "
+               "every well-formed graph and the theorem is re-stated over State objects reachable from init_store with the hypothesis "
+               "gone (C11_logging_transparent_state, C11_fit_is_state_history; coq/theories/Compose, docs/Compose-api.md). Most of the assurance that the CODE has this shape comes from the per-run checks: recorded traces of real "
                "fits with logging = the trace without logging + read-only operations + zero generator consumption (checked in Coq and "
                "on generator-state digests), and bit-identical parameters / individual parameters / simulated data across repetition, "
                "prior random-number consumption, prior fits and the logging grid. 'Never aborts' is a runtime check only (finding F4).",
@@ -35,6 +36,9 @@ META = dict(
 OBLIGATIONS = [
     "C11_logging_transparent", "C11_logging_transparent_example", "C11_drawing_observer_refuted",
     "C11_reseed", "C11_reseed_call", "C11_settings_copied", "C11_settings_alias_refuted",
+    # composition with C01 (coq/theories/Compose/): the interface hypothesis discharged on the real State model
+    "C11_state_interface_discharged", "C11_cell_is_state_object", "C11_reachable_states_consistent",
+    "C11_logging_transparent_state", "C11_fit_is_state_history", "C11_state_example",
 ]
 
 SCRATCH = f"/tmp/scratch/c11-check-{os.getpid()}"
